@@ -33,6 +33,8 @@ RULE = (
     "agreement/must-fail/progress oracle; distinct = hash(option tuple, outcome). (d) byte x mask of ClientHello/ServerHello "
     "inside re-protected Initial packets, distinct = (version, message, field, outcome)."
 )
+RULE += ' Part (c) ends every completed handshake with a stray Version Negotiation packet and a stray Retry packet (built from the connection IDs on the wire) delivered to the client: version, TLS state, cipher suite and 1-RTT keys must stay what both sides agreed on.'
+
 ASSUMPTIONS = [
     "an exception of any type raised by the endpoint that receives an altered message counts as 'did not complete' (typing is C05's subject)",
     "completion is read from tls.Context.state / the 1-RTT receive secret callback (TLS level) and HandshakeCompleted events (QUIC level)",
